@@ -459,7 +459,11 @@ func (s *Server) attachClient(cl *Client, listener string) error {
 	verifPoint("attach.afterClientsAdd")
 	select {
 	case <-s.done: // Close has started and may already have taken its snapshot of Clients: it would never disconnect this client
-		_ = s.DisconnectClient(cl, packets.ErrServerShuttingDown)
+		if cl.Properties.ProtocolVersion < 5 {
+			_ = s.SendConnack(cl, packets.ErrServerUnavailable, false, nil)
+		} else {
+			_ = s.SendConnack(cl, packets.ErrServerShuttingDown, false, nil) // [MQTT-3.2.0-1] the first packet is a CONNACK
+		}
 		return packets.ErrServerShuttingDown
 	default:
 	}
